@@ -1,5 +1,6 @@
 import Refine.Lemmas.SmoothInterpBetween
 import Refine.Lemmas.SmoothInterpEx
+import Refine.Lemmas.SmoothInterpReal
 import Refine.Props.C05
 
 /-!
@@ -172,20 +173,6 @@ theorem between_fresh {cfg : Cfg} (hl : Live cfg) {bg : Bg P B M} {D : P → Int
 
 /-! ### histories -/
 
-/-- what a step needs for the strong invariant: the position of an inserted vertex has a donor -/
-def OpOk (D : P → Int → B → Prop) : Op P B M → Prop
-  | .improve .. => True
-  | .between _ _ _ xyz _ => ∃ c b, D xyz c b
-
-/-- the vertices known to be fresh after a step: an insertion adds its vertex -/
-def opDom (A : Nat → Prop) : Op P B M → Nat → Prop
-  | .improve .., n => A n
-  | .between _ _ new _ _, n => A n ∨ n = new
-
-def opsDom (A : Nat → Prop) : List (Op P B M) → Nat → Prop
-  | [] => A
-  | op :: rest => opsDom (opDom A op) rest
-
 /-- **history, weak form**: along any sequence of improver calls (any kinds, any vertices, any acceptance tests that
     may look at the whole grid) and split insertions, every vertex that is located on this rank has a fresh record -/
 theorem history_located_implies_fresh {cfg : Cfg} (hl : Live cfg) {bg : Bg P B M} {D : P → Int → B → Prop}
@@ -337,26 +324,6 @@ theorem history_carries_field {cfg : Cfg} (hl : Live cfg) {bg : Bg P B M} {D : P
   fun n hn => fresh_carries_field field hexact (G' n) (history_fresh hl hs ht ops A G G' hG hok hrun n hn)
 
 /-! ### the property's own sentence for a log-linear background (ties the bookkeeping to `Props/C05.lean`) -/
-
-open Refine Refine.Model.Matrix Refine.Model.Metric in
-open Refine.Model.Geom (V3 B4) in
-/-- a tetrahedral background whose vertex logs are an affine function of position: the kernel `Bg.interp` is
-    `ref_metric_interpolate_node`'s (`Model/Metric.interpolateNode`) on the four vertex logs of the donor cell -/
-noncomputable def loglinInterp (verts : Int → V3 ℝ × V3 ℝ × V3 ℝ × V3 ℝ) (L0 Lx Ly Lz : M6 ℝ) (c : Int) (b : B4 ℝ) :
-    Option (M6 ℝ × M6 ℝ) :=
-  match interpolateNode 4 b (affM L0 Lx Ly Lz (verts c).1) (affM L0 Lx Ly Lz (verts c).2.1)
-      (affM L0 Lx Ly Lz (verts c).2.2.1) (affM L0 Lx Ly Lz (verts c).2.2.2) with
-  | .ok p => some p
-  | .error _ => none
-
-open Refine Refine.Model.Matrix in
-open Refine.Model.Geom (V3 B4) in
-/-- `b` are barycentric coordinates of `x` in cell `c`: non-negative, sum one, reproduce the point -/
-def BaryDonor (verts : Int → V3 ℝ × V3 ℝ × V3 ℝ × V3 ℝ) (x : V3 ℝ) (c : Int) (b : B4 ℝ) : Prop :=
-  0 ≤ b.b0 ∧ 0 ≤ b.b1 ∧ 0 ≤ b.b2 ∧ 0 ≤ b.b3 ∧ b.b0 + b.b1 + b.b2 + b.b3 = 1 ∧
-  b.b0 * (verts c).1.x + b.b1 * (verts c).2.1.x + b.b2 * (verts c).2.2.1.x + b.b3 * (verts c).2.2.2.x = x.x ∧
-  b.b0 * (verts c).1.y + b.b1 * (verts c).2.1.y + b.b2 * (verts c).2.2.1.y + b.b3 * (verts c).2.2.2.y = x.y ∧
-  b.b0 * (verts c).1.z + b.b1 * (verts c).2.1.z + b.b2 * (verts c).2.2.1.z + b.b3 * (verts c).2.2.2.z = x.z
 
 open Refine Refine.Model.Matrix Refine.Model.Metric in
 open Refine.Model.Geom (V3 B4) in
